@@ -99,7 +99,19 @@ def run(repo: Repo, chk: Check, thorough: bool = False) -> None:
     fa = repo.func(f'{OPT}.Options.from_args')
     ok = any(call_name(c) == 'parse_args' for c in calls_in(fa)) and any(call_name(c) == 'from_namespace' for c in calls_in(fa))
     chk.ob('R20.1', f'{OPT}.Options.from_args :: strings -> argparse -> from_namespace', ok, 'cls.from_namespace(parse_args(args))', fa.loc)
-    chk.require('R20.1', 5)
+    # configargparse decides "this option was given on the command line, ignore the file" by looking for the option's exact strings in argv;
+    # argparse also accepts unambiguous prefixes (--priv for --privacy).  With abbreviations on, an abbreviated option is not recognised as
+    # an override: the file value is kept and the command-line value is applied on top of it
+    apc = [c for c in calls_in(gp) if call_name(c) == 'ArgumentParser']
+    if not apc:
+        raise AnalysisError('R20.1: the ArgumentParser(...) construction was not found in get_parser')
+    ab = next((k.value for k in apc[0].keywords if k.arg == 'allow_abbrev'), None)
+    okab = isinstance(ab, ast.Constant) and ab.value is False
+    chk.ob('R20.1', f'{OPT}.get_parser :: an abbreviated option cannot slip past the command-line-overrides-file test', okab,
+           'allow_abbrev=False' if okab else
+           'argparse abbreviations are on: with `privacy = [...]` in the config file, `--priv=PUBLIC:pkg.secret` does not override the file (both are '
+           'applied), whereas `--privacy=...` does; same for --html-subj, --template-d, --add-pack, --verb', repo.loc(gp.mod, apc[0]))
+    chk.require('R20.1', 6)
 
     # ------------------------------------------------------------------ R20.2
     vpp = repo.func(f'{CP}.ValidatorParser.parse')
